@@ -234,6 +234,58 @@ def _span(run: Run, fn: FuncInfo, records: List[Any]) -> None:
                      witness='rewrite_imports("x = 1; from district42 import schema; y = 2\\n", mapping) loses a statement')
     else:
         run.holds("SPAN", c, site, "prefix [:col_offset] and suffix [end_col_offset:] of the shared lines are kept unless blank", nontrivial=True)
+    # SPAN-ONELINE: where prefix / suffix are kept, the generated statements sit INSIDE one physical line, so no line
+    # terminator may survive in them (a generated line ends in a literal terminator that has to be stripped completely)
+    oneline_bad: List[str] = []
+    oneline_seen = 0
+    for p, ev, found in per_path:
+        if not found:
+            continue
+        val = ev.data["value"]
+        items = val.items if isinstance(val, ListV) else [val]
+        def terminators(v: Any) -> None:
+            """literal line terminators that survive in the text `v` denotes (strip calls applied to literal tails)"""
+            nonlocal oneline_seen
+            if isinstance(v, Term) and v.op == "mcall" and len(v.args) >= 2 and v.args[1] in ("rstrip", "strip") \
+                    and isinstance(v.args[0], StrV):
+                chars = v.args[2].value if len(v.args) > 2 and isinstance(v.args[2], Const) else " \t\n\r\x0b\x0c"
+                sh = _line_shape(v.args[0])
+                if sh and sh[-1][0] == "lit":
+                    sh[-1] = ("lit", sh[-1][1].rstrip(chars))
+                check(sh)
+                return
+            if isinstance(v, StrV):
+                check(_line_shape(v))
+                for piece in v.pieces:
+                    if not isinstance(piece, str):
+                        terminators(piece[0])
+                return
+            if isinstance(v, Term):
+                for a in v.args:
+                    if isinstance(a, V):
+                        terminators(a)
+            elif isinstance(v, (ListV, TupleV)):
+                for a in v.items:
+                    terminators(getattr(a, "value", a))
+
+        def check(sh: List[Tuple[str, str]]) -> None:
+            nonlocal oneline_seen
+            if "import" not in "".join(t for k, t in sh if k == "lit"):
+                return
+            oneline_seen += 1
+            for sh_k, sh_t in sh:
+                if sh_k == "lit" and ("\r" in sh_t or "\n" in sh_t):
+                    oneline_bad.append(f"a generated statement keeps {sh_t[-2:]!r} when it is joined into the shared line")
+        for item in items:
+            terminators(item)
+    c_ol = "rewrite_imports: one-line splice"
+    if oneline_bad:
+        run.violated("SPAN-ONELINE", c_ol, site, "; ".join(sorted(set(oneline_bad)))[:200],
+                     witness="a CRLF module: 'from district42 import schema; x = 1\\r\\n' is rewritten with a bare \\r in the middle of the line")
+    elif oneline_seen:
+        run.holds("SPAN-ONELINE", c_ol, site, "no line terminator survives inside the joined replacement", nontrivial=True)
+    else:
+        run.undecided("SPAN-ONELINE", c_ol, site, "the joined replacement is not a symbolic string")
     for i, (ck, (x, p, e, which)) in enumerate(sorted(cuts.items(), key=lambda kv: kv[1][3])):
         cc = f"rewrite_imports: column slice #{i + 1}"
         recv = x.args[0]
